@@ -7,7 +7,10 @@ use faer::linalg::solvers::Solve;
 use faer::sparse::linalg::solvers::Lu;
 use faer::sparse::{SparseColMat, Triplet};
 use faer::Mat;
+#[cfg(not(feature = "verif"))]
 use std::collections::{HashMap, HashSet};
+#[cfg(feature = "verif")]
+use crate::verif::collections::{HashMap, HashSet};
 use std::f64::consts::PI;
 
 type SparseMat = SparseColMat<u32, f64>;
